@@ -441,3 +441,45 @@ Theorem T09_duration_order : forall a b, dur_nonneg a -> dur_nonneg b ->
   dur_compare a b true = dur_order_v (dur_val a) (dur_val b).
 Proof. exact dur_compare_order. Qed.
 Print Assumptions T09_duration_order.
+
+(** ** value-space facets of list and union types; canonical form of xs:date *)
+From XV Require Import C09.Spec09i C09.Model09i C09.Spec09j C09.Model09j C09.Proofs09w C09.Proofs09x.
+Local Open Scope N_scope.
+
+(** enumeration on a list type (ListDatatypeValidator::checkContent + valueSpaceCheck): a value is accepted iff some
+    enumeration member has the same number of items and is item-wise equal in the item type's value space -- in
+    particular no proper prefix, proper extension or permutation of a member passes unless it is itself a member *)
+Theorem T09_list_enum : forall (item_cmp : list N -> list N -> Z) (item_eq : list N -> list N -> bool),
+  (forall x y, (item_cmp x y =? 0)%Z = item_eq x y) -> forall content enums,
+  Forall (fun t => item_eq t t = true) (tokens content) ->
+  list_enum_check item_cmp content enums = list_enum_valid item_eq (map tokens enums) (tokens content).
+Proof. exact list_enum_check_spec. Qed.
+Print Assumptions T09_list_enum.
+Theorem T09_list_enum_length : forall (item_eq : list N -> list N -> bool) a b, items_eq item_eq a b = true -> length a = length b.
+Proof. exact items_eq_length. Qed.
+Print Assumptions T09_list_enum_length.
+(** finding F38: union equality through ANY member type (1 = true for int|boolean) against the Spec's union equality *)
+Theorem T09_union_eq_refuted :
+  union_compare [mv_int; mv_bool] [0x31] C09.Spec09b.s_true = 0%Z /\ union_eq [sm_int; sm_bool] [0x31] C09.Spec09b.s_true = false /\
+  union_enum_check [mv_int; mv_bool] C09.Spec09b.s_true [[0x31]] = true.
+Proof. exact union_eq_refuted. Qed.
+Print Assumptions T09_union_eq_refuted.
+
+(** getDateCanonicalRepresentation: from the normalised (UTC) fields of a date (year >= 2) it computes a valid calendar
+    date and a recoverable zone between -11:59 and +12:00 that denote the SAME starting instant (value preservation,
+    including the day / month / year roll-over when the UTC time is 12:00 or later) *)
+Theorem T09_date_canon : forall n, in_range n -> (2 <= n_y n)%Z -> n_s n = 0%Z ->
+  let '((y, mo, d), z) := date_canon_fields n in
+  (date_start_secs y mo d z = secs_of n /\ -719 <= z <= 720 /\ Proofs09j.date_ok y mo d)%Z.
+Proof. exact date_canon_fields_spec. Qed.
+Print Assumptions T09_date_canon.
+
+(** ** the repaired double/float code (fixes/C09-double-compare-nan.patch, C09-double-sign-dot.patch) *)
+Theorem T09_float_special_fixed : forall a b, float_cmp_special_f true a b = special_order a b.
+Proof. exact float_special_fixed. Qed.
+Print Assumptions T09_float_special_fixed.
+Theorem T09_float_f33_fixed :
+  float_init_f true [ch_minus; ch_dot] = false /\ float_init_f true [ch_plus; ch_dot] = false /\
+  float_init_f true [ch_minus; ch_dot; ch_0] = true /\ float_init_f true [ch_plus; ch_0; ch_dot] = true /\ float_init_f true [ch_0] = true.
+Proof. exact f33_fixed. Qed.
+Print Assumptions T09_float_f33_fixed.
